@@ -1,16 +1,17 @@
 (* C04 - one activation calls each surviving member exactly once, even under churn.
-   ONLY statements closed by `exact`, with Print Assumptions beneath each, and one Example per theorem
-   showing that its hypotheses are satisfiable by a non-trivial state.
+   ONLY statements closed by `exact`, with Print Assumptions beneath each, and Examples showing that
+   the hypotheses are satisfiable by non-trivial states.
    `reached ops` is the state after ANY history of creations, removals, reference keeping/dropping,
-   set construction, activations and group activations, from the empty model. *)
+   set construction, activations (with callbacks that may raise or start activations of their own)
+   and group activations, from the empty model.  `ex1 sc2` is the executor of the callbacks of an
+   op's activation (sc2 = what agents called by a nested activation do); statements marked "any ex"
+   hold for every executor. *)
 From Coq Require Import ZArith List Bool Permutation.
 From Mesa Require Import Common.ListX Model.Activation Proofs.ActivationProofs.
 Import ListNotations.
 Open Scope Z_scope.
 
 (* --- the registry the activation runs on --- *)
-(* every reachable state: no duplicate registrations, every id in use was handed out, every set is
-   duplicate-free and contains living agents only, model.agents lists exactly the registry *)
 Theorem C04_reachable_invariant : forall ops, Inv (reached ops).
 Proof. exact inv_reachable. Qed.
 Print Assumptions C04_reachable_invariant.
@@ -26,18 +27,26 @@ Theorem C04_all_agents_is_registry : forall ops,
 Proof. exact reached_all_is_reg. Qed.
 Print Assumptions C04_all_agents_is_registry.
 
-(* --- one activation (do / shuffle_do / map), any set, any script, any shuffle outcome --- *)
-(* nobody is called twice *)
-Theorem C04_once : forall ops k r perm sc snap s' log,
+(* agents_by_type[c] is the registry filtered by exact class c, in registry order, and every class
+   with a registered agent is a key whose set contains that agent *)
+Theorem C04_by_type_is_filtered_registry : forall ops,
+  (forall c m, lookup (SType c) (sets (reached ops)) = Some m ->
+               m = filter (fun a => class_of (reached ops) a =? c) (reg (reached ops))) /\
+  (forall a, In a (reg (reached ops)) ->
+             exists m, lookup (SType (class_of (reached ops) a)) (sets (reached ops)) = Some m /\ In a m).
+Proof. exact reached_by_type. Qed.
+Print Assumptions C04_by_type_is_filtered_registry.
+
+(* --- one activation (do / shuffle_do / map), any set, any scripts, any shuffle outcome --- *)
+Theorem C04_once : forall sc2 ops k r perm sc snap s' log rz,
   lookup r (sets (reached ops)) = Some snap ->
-  activate k perm sc snap (reached ops) = Some (s', log) -> NoDup log.
-Proof. exact reached_once. Qed.
+  activate (ex1 sc2) k perm sc snap (reached ops) = Some (s', log, rz) -> NoDup log.
+Proof. intro sc2. exact (reached_once (ex1 sc2)). Qed.
 Print Assumptions C04_once.
 
-(* do and map visit in set order; shuffle_do in the order random.shuffle gave, which is a permutation
-   of the members *)
-Theorem C04_order : forall k perm sc snap s s' log,
-  activate k perm sc snap s = Some (s', log) ->
+(* any ex *)
+Theorem C04_order : forall ex k perm sc snap s s' log rz,
+  activate ex k perm sc snap s = Some (s', log, rz) ->
   match k with
   | KShuffleDo => subseq log perm /\ Permutation perm snap
   | _ => subseq log snap
@@ -45,158 +54,191 @@ Theorem C04_order : forall k perm sc snap s s' log,
 Proof. exact activate_order. Qed.
 Print Assumptions C04_order.
 
-(* called  <->  a member at call start that is alive when its turn comes *)
-Theorem C04_exact : forall ops k r perm sc snap s' log order,
+(* called  <->  a member at call start whose turn is reached and that is alive at that moment *)
+Theorem C04_exact : forall sc2 ops k r perm sc snap s' log rz order,
   lookup r (sets (reached ops)) = Some snap ->
-  activate k perm sc snap (reached ops) = Some (s', log) -> visit_order k perm snap = Some order ->
+  activate (ex1 sc2) k perm sc snap (reached ops) = Some (s', log, rz) -> visit_order k perm snap = Some order ->
   forall a, In a log <->
-            exists s1, turn_state sc order (reached ops) a = Some s1 /\ alive s1 a = true.
-Proof. exact reached_exact. Qed.
+            exists s1, turn_state (ex1 sc2) sc order (push_frame (reached ops)) a = Some s1 /\ alive s1 a = true.
+Proof. intro sc2. exact (reached_exact (ex1 sc2)). Qed.
 Print Assumptions C04_exact.
 
-(* a member that is still registered with its model when its turn comes is called, whatever happened
-   before (any state s, any prefix of the visiting order) *)
-Theorem C04_registered_called : forall sc pre a post s,
-  In a (reg (fst (visit sc pre s))) -> In a (snd (visit sc (pre ++ a :: post) s)).
+(* any ex, any state: a member still registered when its turn comes is called, unless an exception
+   ended the loop before *)
+Theorem C04_registered_called : forall ex sc pre a post s,
+  vrz (visit ex sc pre s) = false ->
+  In a (reg (vst (visit ex sc pre s))) -> In a (vlog (visit ex sc (pre ++ a :: post) s)).
 Proof. exact visit_registered_called. Qed.
 Print Assumptions C04_registered_called.
 
-(* once an agent is removed from its model and neither the program nor the running frame refers to
-   it, it is dead for good: none of the remaining turns calls it *)
-Theorem C04_no_removed : forall sc pre post s a,
-  alive (fst (visit sc pre s)) a = false -> a < next_id (fst (visit sc pre s)) ->
-  snd (visit sc (pre ++ post) s) = snd (visit sc pre s) ++ snd (visit sc post (fst (visit sc pre s))) /\
-  ~ In a (snd (visit sc post (fst (visit sc pre s)))).
-Proof. exact dead_after_prefix_never_called. Qed.
+(* once an agent is removed from its model and neither the program nor a running frame refers to it,
+   it is dead for good: none of the remaining turns calls it *)
+Theorem C04_no_removed : forall sc2 sc pre post s a,
+  alive (vst (visit (ex1 sc2) sc pre s)) a = false -> a < next_id (vst (visit (ex1 sc2) sc pre s)) ->
+  ~ In a (vlog (visit (ex1 sc2) sc post (vst (visit (ex1 sc2) sc pre s)))).
+Proof. intro sc2. exact (dead_after_prefix_never_called (ex1 sc2) (good_ex1 sc2)). Qed.
 Print Assumptions C04_no_removed.
 
-(* only members at call start are called; agents registered during the call have fresh ids and are
-   not called *)
-Theorem C04_no_new : forall ops k r perm sc snap s' log,
+Theorem C04_no_new : forall sc2 ops k r perm sc snap s' log rz,
   lookup r (sets (reached ops)) = Some snap ->
-  activate k perm sc snap (reached ops) = Some (s', log) ->
+  activate (ex1 sc2) k perm sc snap (reached ops) = Some (s', log, rz) ->
   (forall a, In a log -> In a snap /\ a < next_id (reached ops)) /\
   (forall a, In a (reg s') -> ~ In a (reg (reached ops)) -> next_id (reached ops) <= a /\ ~ In a log).
-Proof. exact reached_no_new. Qed.
+Proof. intro sc2. exact (reached_no_new (ex1 sc2) (good_ex1 sc2)). Qed.
 Print Assumptions C04_no_new.
 
-(* a registered member that no callback removes is called - for every script that spares it *)
-Theorem C04_unremoved_called : forall ops k r perm sc snap s' log a,
+(* a registered member that no callback removes is called - for every script that spares it and
+   neither raises nor nests *)
+Theorem C04_unremoved_called : forall sc2 ops k r perm sc snap s' log rz a,
   lookup r (sets (reached ops)) = Some snap ->
-  activate k perm sc snap (reached ops) = Some (s', log) ->
-  In a snap -> In a (reg (reached ops)) -> spares sc a -> In a log.
-Proof. exact reached_unremoved_called. Qed.
+  activate (ex1 sc2) k perm sc snap (reached ops) = Some (s', log, rz) ->
+  In a snap -> In a (reg (reached ops)) -> spares sc a -> calm sc -> In a log.
+Proof. intro sc2. exact (reached_unremoved_called (ex1 sc2) (good_ex1 sc2)). Qed.
 Print Assumptions C04_unremoved_called.
 
-(* model.agents, callbacks that remove nobody (they may create, keep and drop references): the log
-   is exactly the visiting order *)
-Theorem C04_all_called : forall ops k perm sc s' log order,
-  activate k perm sc (reg (reached ops)) (reached ops) = Some (s', log) ->
-  visit_order k perm (reg (reached ops)) = Some order ->
-  (forall a, spares sc a) -> log = order.
-Proof. exact reached_all_called. Qed.
+(* a set of registered agents, callbacks that remove nobody / raise nothing / start no activation
+   (they may create, keep and drop references): the log is exactly the visiting order *)
+Theorem C04_all_called : forall sc2 ops k r perm sc snap s' log rz order,
+  lookup r (sets (reached ops)) = Some snap -> (forall a, In a snap -> In a (reg (reached ops))) ->
+  activate (ex1 sc2) k perm sc snap (reached ops) = Some (s', log, rz) ->
+  visit_order k perm snap = Some order ->
+  (forall a, spares sc a) -> calm sc -> log = order /\ rz = false.
+Proof. intro sc2. exact (reached_all_called (ex1 sc2) (good_ex1 sc2)). Qed.
 Print Assumptions C04_all_called.
 
-(* no activation (in particular shuffle_do) reorders any set: afterwards each set is what it was,
-   minus some members, plus agents created during the call appended at the end *)
-Theorem C04_set_order_untouched : forall k perm sc snap s s' log,
-  activate k perm sc snap s = Some (s', log) ->
+(* ... and agents_by_type[c] is such a set: activations on by-type sets inherit the theorems above *)
+Theorem C04_by_type_members_registered : forall ops c snap,
+  lookup (SType c) (sets (reached ops)) = Some snap -> forall a, In a snap -> In a (reg (reached ops)).
+Proof. exact reached_by_type_members. Qed.
+Print Assumptions C04_by_type_members_registered.
+
+Theorem C04_set_order_untouched : forall sc2 k perm sc snap s s' log rz,
+  activate (ex1 sc2) k perm sc snap s = Some (s', log, rz) ->
   forall r m, lookup r (sets s) = Some m ->
     exists keep new, lookup r (sets s') = Some (filter keep m ++ new) /\
                      forall a, In a new -> next_id s <= a < next_id s'.
-Proof. exact activate_sets_keep_order. Qed.
+Proof. intro sc2. exact (activate_sets_keep_order (ex1 sc2) (good_ex1 sc2)). Qed.
 Print Assumptions C04_set_order_untouched.
 
-(* a program-made set after the call is exactly the set before minus the agents that have died, order
-   kept (removal from the model alone does not take an agent out of it) *)
-Theorem C04_user_set_exact : forall ops k r perm sc snap s' log j m,
+Theorem C04_user_set_exact : forall sc2 ops k r perm sc snap s' log rz j m,
   lookup r (sets (reached ops)) = Some snap ->
-  activate k perm sc snap (reached ops) = Some (s', log) ->
+  activate (ex1 sc2) k perm sc snap (reached ops) = Some (s', log, rz) ->
   lookup (SUser j) (sets (reached ops)) = Some m ->
   lookup (SUser j) (sets s') = Some (filter (alive s') m).
-Proof. exact reached_user_set_exact. Qed.
+Proof. intro sc2. exact (reached_user_set_exact (ex1 sc2) (good_ex1 sc2)). Qed.
 Print Assumptions C04_user_set_exact.
 
-(* groupby(...).do / map: the groups are visited in first-seen key order, each group's activation
-   calls only members of that group, none twice, in group order for do/map - hence nobody is called
-   twice by the whole group activation *)
-Theorem C04_groupby_once : forall ops k r m perms sc members s' logs,
+(* shuffle_do is shuffle() followed by do(): given the same outcome of random.shuffle on the same
+   weak-key snapshot, the same agents are called in the same order and the same state results *)
+Theorem C04_shuffle_do_eq_shuffle_then_do : forall ex ops r snap perm sc,
+  lookup r (sets (reached ops)) = Some snap ->
+  shuffle_then_do ex perm sc snap (reached ops) = activate ex KShuffleDo perm sc snap (reached ops).
+Proof. exact reached_shuffle_do_eq. Qed.
+Print Assumptions C04_shuffle_do_eq_shuffle_then_do.
+
+(* a callback raises (itself or out of a nested activation): the loop is left at once - the log is
+   the log of the prefix visited before plus the raiser, the state is the one at the raise *)
+Theorem C04_exception_aborts : forall ex sc order s,
+  vrz (visit ex sc order s) = true ->
+  exists pre r post,
+    order = pre ++ r :: post /\ vrz (visit ex sc pre s) = false /\
+    alive (vst (visit ex sc pre s)) r = true /\
+    snd (visit1 ex sc r (vst (visit ex sc pre s))) = true /\
+    vlog (visit ex sc order s) = vlog (visit ex sc pre s) ++ [r] /\
+    vst (visit ex sc order s) = fst (visit1 ex sc r (vst (visit ex sc pre s))).
+Proof. exact visit_raised. Qed.
+Print Assumptions C04_exception_aborts.
+
+(* the nested activation is an activation: every statement proved for `activate ex0` applies to the
+   calls it makes, and whatever it does the outer executor stays well behaved *)
+Theorem C04_nested_executor_good : forall sc2, good_ex (ex1 sc2).
+Proof. exact good_ex1. Qed.
+Print Assumptions C04_nested_executor_good.
+
+Theorem C04_groupby_once : forall ex ops k r m perms sc members s' logs rz,
   lookup r (sets (reached ops)) = Some members ->
-  visit_groups k sc (groups_of m members) perms (reached ops) = Some (s', logs) ->
-  map fst logs = group_keys m members /\ NoDup (map fst logs) /\
-  NoDup (flat_map snd logs) /\
+  visit_groups ex k sc (groups_of m members) perms (reached ops) = Some (s', logs, rz) ->
+  (exists rest, group_keys m members = map fst logs ++ rest /\ (rz = false -> rest = [])) /\
+  NoDup (map fst logs) /\ NoDup (flat_map snd logs) /\
   forall key l, In (key, l) logs ->
     group_log_ok k (filter (fun a => gkey m a =? key) members) l.
 Proof. exact reached_groupby_once. Qed.
 Print Assumptions C04_groupby_once.
 
-(* what a callback receives is the caller's argument list, once per call *)
 Theorem C04_args_passthrough : forall args a log,
   obs_log args (a :: log) = a :: args ++ obs_log args log.
 Proof. exact obs_log_cons. Qed.
 Print Assumptions C04_args_passthrough.
 
 (* ------------------------------------------------------------------ non-vacuity *)
-(* five agents (4 kept by the program after removal), a program-made set in another order *)
 Definition ex_ops : list op :=
   [OAct (Create 0 3 false); OAct (Create 1 2 false); OAct (RemoveId 4 true); ONewSet [5; 4; 2; 1; 9; 2]].
-(* on its turn 5 removes 2 (dropped: dies) and 1 (kept); 4 creates an agent; 1 removes itself *)
 Definition ex_sc : script :=
   [(5, [RemoveId 2 false; RemoveId 1 true]); (4, [Create 2 1 false]); (1, [RemoveSelf false])].
 
 Example C04_example_reach :
   lookup (SUser 0) (sets (reached ex_ops)) = Some [5; 4; 2; 1] /\ reg (reached ex_ops) = [1; 2; 3; 5] /\
-  ext (reached ex_ops) = [4].
+  ext (reached ex_ops) = [4] /\
+  lookup (SType 0) (sets (reached ex_ops)) = Some [1; 2; 3] /\ lookup (SType 1) (sets (reached ex_ops)) = Some [5].
 Proof. vm_compute. repeat split. Qed.
 
 Example C04_example_do :
-  exists s', activate KDo [] ex_sc [5; 4; 2; 1] (reached ex_ops) = Some (s', [5; 4; 1]) /\
+  exists s', activate (ex1 []) KDo [] ex_sc [5; 4; 2; 1] (reached ex_ops) = Some (s', [5; 4; 1], false) /\
              reg s' = [3; 5; 6] /\ lookup (SUser 0) (sets s') = Some [5; 4; 1] /\
-             lookup (SType 2) (sets s') = Some [6].
+             lookup (SType 2) (sets s') = Some [6] /\ lookup (SType 0) (sets s') = Some [3].
 Proof. eexists. vm_compute. repeat split. Qed.
 
 Example C04_example_shuffle :
-  exists s', activate KShuffleDo [2; 1; 5; 4] ex_sc [5; 4; 2; 1] (reached ex_ops) = Some (s', [2; 1; 5; 4]) /\
+  exists s', activate (ex1 []) KShuffleDo [2; 1; 5; 4] ex_sc [5; 4; 2; 1] (reached ex_ops) = Some (s', [2; 1; 5; 4], false) /\
+             shuffle_then_do (ex1 []) [2; 1; 5; 4] ex_sc [5; 4; 2; 1] (reached ex_ops) = Some (s', [2; 1; 5; 4], false) /\
              lookup (SUser 0) (sets s') = Some [5; 4] /\ reg s' = [3; 5; 6].
 Proof. eexists. vm_compute. repeat split. Qed.
 
-(* C04_exact / C04_no_removed: agent 2 is dead when its turn comes, agent 1 is alive only through ext *)
 Example C04_example_turn :
-  (exists s1, turn_state ex_sc [5; 4; 2; 1] (reached ex_ops) 2 = Some s1 /\ alive s1 2 = false /\ 2 < next_id s1) /\
-  (exists s1, turn_state ex_sc [5; 4; 2; 1] (reached ex_ops) 1 = Some s1 /\ alive s1 1 = true /\
+  (exists s1, turn_state (ex1 []) ex_sc [5; 4; 2; 1] (push_frame (reached ex_ops)) 2 = Some s1 /\ alive s1 2 = false /\ 2 < next_id s1) /\
+  (exists s1, turn_state (ex1 []) ex_sc [5; 4; 2; 1] (push_frame (reached ex_ops)) 1 = Some s1 /\ alive s1 1 = true /\
               memz 1 (reg s1) = false).
 Proof. split; eexists; vm_compute; repeat split; congruence. Qed.
 
-Example C04_example_spares : spares ex_sc 5 /\ spares ex_sc 4 /\ ~ spares ex_sc 2.
+(* agent 5 raises after removing 2: 4, 2, 1 are never visited, 2 is gone, the frame is released *)
+Example C04_example_raise :
+  exists s', activate (ex1 []) KDo [] [(5, [RemoveId 2 false; Raise; RemoveId 1 false])] [5; 4; 2; 1] (reached ex_ops)
+             = Some (s', [5], true) /\ reg s' = [1; 3; 5] /\ cur s' = [].
+Proof. eexists. vm_compute. repeat split. Qed.
+
+(* agent 1, called by model.agents.do, runs agents_by_type[0].shuffle_do itself; in there 3 removes 1
+   (the running outer agent) and 2 raises: inner log [3;2], the exception leaves both activations *)
+Example C04_example_nested :
+  exists s', activate (ex1 [(3, [RemoveId 1 false]); (2, [Raise])]) KDo [] [(1, [Nested KShuffleDo (SType 0) [3; 2; 1]])]
+                      [1; 2; 3; 5] (reached ex_ops) = Some (s', [1], true) /\
+             nlog s' = [-35; 3; 2] /\ reg s' = [2; 3; 5] /\ cur s' = [].
+Proof. eexists. vm_compute. repeat split. Qed.
+
+Example C04_example_calm_spares :
+  let sc := [(3, [Create 1 2 true; AddRef 5]); (5, [DropRef 4])] in
+  calm sc /\ (forall a, spares sc a) /\ ~ calm [(1, [Raise])] /\ ~ spares ex_sc 2.
 Proof.
-  assert (forall a, (forall r, In r [5; 4; 1] -> forallb (fun x => negb (removes r x a)) (script_of ex_sc r) = true) ->
-                    spares ex_sc a) as Hs.
-  { intros a H r x Hx.
-    assert (In r [5; 4; 1]) as Hr.
-    { unfold ex_sc in Hx. simpl in Hx.
-      destruct (r =? 5) eqn:E5; [apply Z.eqb_eq in E5; subst; simpl; tauto|].
-      destruct (r =? 4) eqn:E4; [apply Z.eqb_eq in E4; subst; simpl; tauto|].
-      destruct (r =? 1) eqn:E1; [apply Z.eqb_eq in E1; subst; simpl; tauto|]. destruct Hx. }
-    specialize (H r Hr). rewrite forallb_forall in H. specialize (H x Hx).
-    destruct (removes r x a); [discriminate|reflexivity]. }
-  split; [|split].
-  - apply Hs. intros r [<-|[<-|[<-|[]]]]; reflexivity.
-  - apply Hs. intros r [<-|[<-|[<-|[]]]]; reflexivity.
+  split; [|split; [|split]].
+  - intros r x Hx. simpl in Hx.
+    destruct (r =? 3); [simpl in Hx; destruct Hx as [Hx|[Hx|Hx]]; [subst x; reflexivity|subst x; reflexivity|contradiction]|].
+    destruct (r =? 5); [simpl in Hx; destruct Hx as [Hx|Hx]; [subst x; reflexivity|contradiction]|contradiction].
+  - intros a r x Hx. simpl in Hx.
+    destruct (r =? 3); [simpl in Hx; destruct Hx as [Hx|[Hx|Hx]]; [subst x; reflexivity|subst x; reflexivity|contradiction]|].
+    destruct (r =? 5); [simpl in Hx; destruct Hx as [Hx|Hx]; [subst x; reflexivity|contradiction]|contradiction].
+  - intros H. specialize (H 1 Raise). simpl in H. discriminate H. left. reflexivity.
   - intros H. specialize (H 5 (RemoveId 2 false)). simpl in H. discriminate H. left. reflexivity.
 Qed.
 
-(* C04_all_called: a script that only creates and keeps references, on model.agents, shuffled *)
 Example C04_example_all_called :
   let sc := [(3, [Create 1 2 true; AddRef 5]); (5, [DropRef 4])] in
-  exists s', activate KShuffleDo [3; 5; 1; 2] sc (reg (reached ex_ops)) (reached ex_ops) = Some (s', [3; 5; 1; 2]) /\
+  exists s', activate (ex1 []) KShuffleDo [3; 5; 1; 2] sc (reg (reached ex_ops)) (reached ex_ops) = Some (s', [3; 5; 1; 2], false) /\
              reg s' = [1; 2; 3; 5; 6; 7] /\ ext s' = [6; 7; 5].
 Proof. eexists. vm_compute. repeat split. Qed.
 
+Example C04_example_groups :
+  exists s', visit_groups (ex1 []) KDo ex_sc (groups_of 2 [5; 4; 2; 1]) [] (reached ex_ops)
+             = Some (s', [(1, [5; 1]); (0, [4])], false).
+Proof. eexists. vm_compute. reflexivity. Qed.
+
 Example C04_example_args : obs_log [7; 8] [5; 4; 1] = [5; 7; 8; 4; 7; 8; 1; 7; 8].
 Proof. reflexivity. Qed.
-
-(* groups by id mod 2 of the program-made set [5;4;2;1]: keys 1,0; 5 kills 2 before group 0 runs *)
-Example C04_example_groups :
-  exists s', visit_groups KDo ex_sc (groups_of 2 [5; 4; 2; 1]) [] (reached ex_ops)
-             = Some (s', [(1, [5; 1]); (0, [4])]).
-Proof. eexists. vm_compute. reflexivity. Qed.
